@@ -11,7 +11,7 @@
    Complete_proofs.v shows these leave every used set as it was).
    "Eligible" is what ordered_matching returns (C07/C17 say which entries these are); "has room" is the
    negation of [no_room].  Holds for every state satisfying MapInv, i.e. every reachable state (C02). *)
-From NIPAM Require Import Sys Alloc_proofs Pool_proofs Inv_proofs Complete_proofs Path_proofs Progress_proofs.
+From NIPAM Require Import Sys Alloc_proofs Pool_proofs Inv_proofs Complete_proofs Path_proofs Progress_proofs World_proofs Path_proofs Uniq_proofs.
 Open Scope N_scope.
 
 Theorem C05_partial_refusal_is_reported :
@@ -87,3 +87,34 @@ Theorem C05_servable_node_is_served :
     sync_node po lab svcs canp apisame held m (Some node) (Some nr) (POk :: outs) = (m', Ok tt, [FxPatch (n_name node) cs POk]).
 Proof. exact servable_node_is_served. Qed.
 Print Assumptions C05_servable_node_is_served.
+
+(* ---------- the same in every reachable world: the invariants are not hypotheses about the state ---------- *)
+Theorem C05_in_every_history_refused_only_when_nothing_has_room :
+  forall po lab ops, Forall wf_op ops ->
+  forall m, w_ctl (run po lab init_world ops) = Some m ->
+  forall held node m' e ps,
+  ordered_matching po lab m (n_labels node) true = Ok ps ->
+  prioritized_cidrs po lab held m node = (m', Err e) ->
+  forall p c, In p ps -> get_entry m p = Some c -> no_room m held c.
+Proof.
+  intros po lab ops H m Em held node m' e ps. apply prioritized_cidrs_refusal.
+  exact (reachable_state_inv po lab ops m H Em).
+Qed.
+Print Assumptions C05_in_every_history_refused_only_when_nothing_has_room.
+
+Theorem C05_in_every_history_a_servable_node_is_served :
+  forall po lab ops, Forall wf_op ops ->
+  forall m, w_ctl (run po lab init_world ops) = Some m ->
+  forall svcs canp apisame held node nr outs ps,
+  n_cidrs node = [] -> n_deleting node = false -> n_cidrs nr = [] ->
+  (forall cs, canp cs = true) ->
+  ordered_matching po lab m (n_labels node) true = Ok ps ->
+  (exists p c, In p ps /\ get_entry m p = Some c /\ ~ no_room m held c) ->
+  exists m' cs, cs <> [] /\
+    sync_node po lab svcs canp apisame held m (Some node) (Some nr) (POk :: outs) = (m', Ok tt, [FxPatch (n_name node) cs POk]).
+Proof.
+  intros po lab ops H m Em svcs canp apisame held node nr outs ps. apply servable_node_is_served.
+  - exact (reachable_state_inv po lab ops m H Em).
+  - exact (proj1 (one_entry_per_clustercidr_in_every_history po lab ops H m Em)).
+Qed.
+Print Assumptions C05_in_every_history_a_servable_node_is_served.
